@@ -199,9 +199,8 @@ func checkEstimator(c *core.Ctx, p *packages.Package, d *declIndex, e estEntry) 
 		return
 	}
 	tags := []string{"a", "b"}
-	if c.Tier == "thorough" {
-		tags = []string{"a", "b", "c"} // a third generic observation: the identity is re-checked on a larger data set
-	}
+	// (a third observation makes the polynomial identities too large to normalise in reasonable time; two generic
+	// observations already separate the maximiser from every other function of the sufficient statistics)
 	for _, tag := range tags {
 		if obj, msg = runOn(p, d, e.T, "NewObservation", obj, nil); obj == nil {
 			c.Unknown("C16.R1", cons, "NewObservation interpreted", ctor.Pos(), msg)
